@@ -268,7 +268,7 @@ func ruleR26(c *Ctx) {
 							w = c.e.writesThrough(f)
 						} else {
 							w = externalWrites[name]
-							if w == nil && !externalPure[name] && !isConversion(info, x) {
+							if w == nil && !isExternalPure(name) && !isConversion(info, x) {
 								w = map[int]bool{}
 								for i := range x.Args {
 									w[i] = true
